@@ -56,7 +56,7 @@ pub fn minimise(cluster: &ClusterCfg, trace: &[Action], v: &Violation, budget_s:
             Action::Ping { .. } => 16,
             Action::ReportUnreachable { .. } => 17,
             Action::ReportSnapshot { .. } => 18,
-            Action::Compact { .. } => 19,
+            Action::Compact { .. } | Action::StorageExercise { .. } => 19,
             Action::SetKnob { .. } => 20,
             Action::StorageFault { .. } => 21,
             Action::EntriesFetched { .. } => 22,
@@ -88,6 +88,7 @@ pub fn minimise(cluster: &ClusterCfg, trace: &[Action], v: &Violation, budget_s:
             | Action::ReportUnreachable { n, .. }
             | Action::ReportSnapshot { n, .. }
             | Action::Compact { n, .. }
+            | Action::StorageExercise { n, .. }
             | Action::SetKnob { n, .. }
             | Action::StorageFault { n, .. }
             | Action::EntriesFetched { n }
